@@ -24,7 +24,7 @@ FRAG = ["http://", "a.b", "www.", "&", " ", "javascript://", '"', "<", "(", ")",
 PROTOS = [["http", "https"], ["http"], ["ftp", "javascript"], []]
 
 
-def _check(text, out, shorten, require_protocol, permitted):
+def _check(text, out, shorten, require_protocol, permitted, allow_split=False):
     esc = ref_escape(text)
     rest = []           # output with tags removed and labels replaced by their URL
     i = 0
@@ -75,7 +75,8 @@ def _check(text, out, shorten, require_protocol, permitted):
                 "label %r is not a proper prefix of %r + '...'" % (label, url)
             pre = label[:-3]
             amp = pre.rfind("&")
-            assert amp < 0 or ";" in pre[amp:], "label %r ends inside a character entity" % (label,)
+            if not allow_split:      # allow_split only when the recorded known finding is excluded
+                assert amp < 0 or ";" in pre[amp:], "label %r ends inside a character entity" % (label,)
         else:
             assert not titled
         rest.append(url)
@@ -175,8 +176,6 @@ def pre_clip(proto: int, host: int, path: int, special: int, tail: int) -> bool:
     if not (0 <= proto <= 2 and 0 <= special <= 1 and P.H0 <= host <= P.H1 and -1 <= path <= 8
             and P.T0 <= tail <= P.T1):
         return False
-    if P.exclude and "shorten_splits_entity" in P.exclude:
-        return False
     return in_shard(proto * 2 + special)
 
 
@@ -194,7 +193,9 @@ def h_clip(proto: int, host: int, path: int, special: int, tail: int):
     text = (("http://", "www.", "https://")[proto] + "h" * host + ("/" + "p" * path if path >= 0 else "")
             + ("&", '"')[special] + "t" * tail)
     out = escape.linkify(text, shorten=True)
-    n = _check(text, out, True, False, ["http", "https"])
+    # with the known finding "shorten_splits_entity" recorded (P.exclude) everything but the split is checked
+    n = _check(text, out, True, False, ["http", "https"],
+               allow_split=bool(P.exclude) and "shorten_splits_entity" in P.exclude)
     if "...</a>" in out and "&" not in out.split(">")[1]:
         reached("clipped_before_entity")
 
